@@ -11,4 +11,5 @@ CONSTANTS
   MaxCalls = 3
   Execs = {"e1", "e2"}
   Stateless = TRUE
-INVARIANTS TypeOK ExecCounts LeaderIsOperator LeaderIgnoresOrderAndRepetition LeaderHistoryIndependent LeaderIdempotent LeaderRankDependsOnSeedAndSize ChecklistShape HeartbeatBySeedOnly ChecklistHistoryIndependent SeedHistoryIndependent
+  FreshArrays = TRUE
+INVARIANTS TypeOK ExecCounts LeaderIsOperator LeaderIgnoresOrderAndRepetition LeaderHistoryIndependent LeaderIdempotent LeaderRankDependsOnSeedAndSize ChecklistShape HeartbeatBySeedOnly ChecklistHistoryIndependent SeedHistoryIndependent ChecklistStable ChecklistDependsOnlyOnSeedAndWindow
